@@ -11,6 +11,9 @@ declare -A ONLY=( [C01_1]=Maze [C01_2]=GraphColoring [C01_3]=Snake [C02_1]=PacMa
  [C04_4]=Knapsack [C04_5]=RobotWarehouse [C04_6]=LevelBasedForaging [C05_4]=Cleaner [C05_5]=Tetris [C05_6]=RobotWarehouse [C06_4]=BinPack [C06_5]=Connector [C06_6]=FlatPack
  [C07_4]=Sokoban [C07_5]=Minesweeper [C07_6]=Connector [C08_4]=Minesweeper [C08_5]=SlidingTilePuzzle [C08_6]=BinPack [C09_4]=Sokoban [C09_5]=TSP [C09_6]=Cleaner
  [C10_4]=Maze [C10_5]=binpack-split [C10_6]=ubik [C12_4]=MMST [C12_5]=Snake [C12_6]=BinPack
+ [C01_4]=player_step [C01_5]=BinPack@2x4x3x2x2x3 [C01_6]=struct-reward [C02_4]=Maze@toy [C02_5]=LevelBasedForaging [C02_6]=RubiksCube [C03_4]=Game2048 [C03_5]=LevelBasedForaging [C03_6]=TSP
+ [C11_4]=N6V3 [C11_5]=SlidingTilePuzzle [C11_6]=PacMan [C13_4]=SlidingTilePuzzle [C13_5]=MultiToSingle [C13_6]=JobShop [C14_4]=Cleaner [C14_5]=TSP [C14_6]=Maze@3x3
+ [C15_4]=Knapsack/dm_env [C15_5]=multi-to-single [C15_6]=TSP [C16_4]=conversions [C16_5]=conversions [C16_6]=conversions
  [C17_1]=Rubik/n=4 [C17_2]=SlidingTilePuzzle@2 [C17_3]=env-solved [C18_1]=grammar [C18_2]=registry [C18_3]=shipped/Sudoku [C19_1]=tree_utils [C19_2]=tree_utils [C19_3]=equality )
 HERE="$(cd "$(dirname "$0")" && pwd)"
 IDS=("$@"); [ ${#IDS[@]} -eq 0 ] && IDS=($(ls "$ROOT"))
